@@ -526,3 +526,105 @@ def name_section_guard(F):
     if not ok:
         r.violate("%s | name guard misses %s" % (fn["path"], "+".join(missing)), F.loc(fn, sinks[0]), "the component-name section is emitted only if some of the name maps are non-empty, but %s are appended to it without being considered: a component that names only those loses its name section" % missing)
     return r
+
+
+# ---------------------------------------------------------------- R-CONVERTER-SIBLINGS
+def converter_siblings(F):
+    """The component converters (process_alias, convert_instance_type, convert_component_type, convert_module_type_declaration,
+    the arms of encode_comp …) re-encode the same wasmparser items in several places.  For every struct-like variant that two
+    or more of them match, each must *use* the same fields of it: a converter that binds or drops a field its sibling
+    re-encodes (e.g. the `kind` of an outer alias) silently replaces it by a constant."""
+    from vlib.facts import pat_alternatives
+    r = RuleResult("R-CONVERTER-SIBLINGS",
+                   "two converters that match the same wasmparser struct-variant use the same fields of it (print_* functions and From impls excluded)")
+    use = {}
+    for fn in F.fns:
+        if fn.get("body") is None or fn["name"].startswith("print") or fn.get("impl_trait"):
+            continue
+        if not (fn["path"].startswith("ir::wrappers::") or fn["name"] in ("encode_comp",)):
+            continue
+        for m in walk(fn["body"]):
+            if m.get("k") != "Match":
+                continue
+            for arm in m["arms"]:
+                for leaf in pat_alternatives(arm["pat"]):
+                    adt = leaf.get("adt") or ""
+                    if leaf.get("k") == "Struct" and adt.startswith("wasmparser::") and not adt.endswith("::Operator") and leaf.get("variant"):
+                        bound = {fname: sub["hid"] for fname, sub in leaf["fields"] if sub.get("k") == "Binding"}
+                        refs = {x["res"]["hid"] for x in walk(arm["body"]) if x.get("k") == "Path" and x.get("res", {}).get("r") == "local"}
+                        used = frozenset(f for f, h in bound.items() if h in refs)
+                        use.setdefault((adt, leaf["variant"]), []).append((fn, arm, used))
+    n = 0
+    for (adt, variant), sites in sorted(use.items()):
+        fns = {s[0]["path"] for s in sites}
+        if len(fns) < 2:
+            continue
+        n += 1
+        union = frozenset().union(*[u for _, _, u in sites])
+        for fn, arm, used in sites:
+            ok = used == union
+            r.ob(ok, {"variant": "%s::%s" % (adt.split("::")[-1], variant), "converter": fn["name"], "uses": sorted(used)})
+            if not ok:
+                r.violate("%s | %s::%s ignores %s" % (fn["path"], adt.split("::")[-1], variant, "+".join(sorted(union - used))), F.loc(fn, arm),
+                          "%s re-encodes %s::%s without its field(s) %s, which the sibling converter(s) %s do re-encode: the field is replaced by a constant" % (
+                              fn["name"], adt.split("::")[-1], variant, sorted(union - used), sorted({s[0]["name"] for s in sites if s[0] is not fn})))
+        r.analysed.append("%s::%s in %s" % (adt.split("::")[-1], variant, sorted(f.split("::")[-1] for f in fns)))
+    r.count("shared_variants", n)
+    return r
+
+
+# ---------------------------------------------------------------- R-COUPLED-COUNT
+def coupled_counts(F):
+    """Component keeps `num_modules` next to `modules` (ComponentIterator::new sizes its walk by the counter, encode walks the
+    vector).  The pair is discovered from the parse-time literal (`num_X: <vec>.len()` beside `X: <vec>`); every method of the
+    type that pushes onto the vector must bump the counter by one on the same path, and nothing else may write the counter."""
+    from vlib.paths import paths, normal_paths
+    r = RuleResult("R-COUPLED-COUNT",
+                   "a counter field initialised from the length of a sibling vector field stays in step: every push onto the vector is accompanied by `counter += 1` on the same path")
+    pairs = set()
+    for fn in F.fns:
+        if fn.get("body") is None:
+            continue
+        lets = {st["pat"]["hid"]: st for st in walk(fn["body"]) if st.get("k") == "Let" and st["pat"].get("k") == "Binding" and "init" in st}
+        for lit in walk(fn["body"]):
+            if lit.get("k") != "Struct" or not (lit.get("adt") or "").endswith(("::Component", "::Module")) or "rest" in lit:
+                continue
+            fields = dict((f_[0], f_[1]) for f_ in lit.get("fields", []) if isinstance(f_, list))
+            vec_of = {}
+            for fname, val in fields.items():
+                v = peel(val)
+                if v.get("k") == "Path" and v.get("res", {}).get("r") == "local" and "Vec<" in (v.get("ty") or ""):
+                    vec_of[v["res"]["hid"]] = fname
+            for fname, val in fields.items():
+                v = peel(val)
+                if v.get("k") == "Path" and v.get("res", {}).get("hid") in lets:
+                    v = peel(lets[v["res"]["hid"]]["init"])
+                if v.get("k") == "MethodCall" and v["method"] == "len":
+                    rv = peel(v["recv"])
+                    if rv.get("k") == "Path" and rv.get("res", {}).get("hid") in vec_of:
+                        pairs.add((lit["adt"], fname, vec_of[rv["res"]["hid"]]))
+    r.count("pairs", len(pairs))
+    for adt, cnt, vec in sorted(pairs):
+        r.analysed.append("%s: %s ↔ %s" % (adt.split("::")[-1], cnt, vec))
+        for fn in F.fns:
+            if fn.get("body") is None or (fn.get("self_adt") or "") != adt:
+                continue
+
+            def classify(n, cnt=cnt, vec=vec):
+                if n.get("k") == "MethodCall" and n["method"] == "push" and (place_path(n["recv"]) or "") == "self." + vec:
+                    return "PUSH"
+                if n.get("k") == "AssignOp" and n["op"] in ("+=", "+") and (place_path(n["lhs"]) or "") == "self." + cnt:
+                    return "INC"
+                if n.get("k") == "Assign" and (place_path(n["lhs"]) or "") == "self." + cnt:
+                    return "SET"
+                return None
+            evs = {ev for ev, _ in normal_paths(paths(fn["body"], classify))}
+            if not any(evs):
+                continue
+            ok = all(ev.count("PUSH") == ev.count("INC") and "SET" not in ev for ev in evs)
+            r.ob(ok, {"fn": fn["path"], "paths": sorted(map(list, evs))})
+            if not ok:
+                r.violate("%s | %s vs %s" % (fn["path"], cnt, vec), F.loc(fn),
+                          "%s changes `%s` and `%s` out of step (paths %s): code that sizes its walk by the counter (the component iterator) and code that walks the vector (encode) then disagree about which elements exist" % (
+                              fn["name"], vec, cnt, sorted(map(list, evs))))
+    return r
